@@ -127,11 +127,11 @@ def run(chk, repo: Repo):
     chk.rule("C02-R1", "the statements that install the proposal are control dependent on not-NaN and not-infinite of the proposed log-density used in the ratio", floor=8)
     chk.rule("C02-R2", "accept region installs point and cached evaluation(s) together from the same proposal; elsewhere the incoming values are kept", floor=8)
     chk.rule("C02-R3", "acceptance test is log(U) <= min(0, E) with one uniform draw and E = +logd(proposal) - cached current logd (+ proposal correction for MALA, gradients at the conditioning points)", floor=8)
-    chk.rule("C02-R4", "MH/CWMH (no proposal correction) refuse non-symmetric proposal distributions when the proposal is configured", floor=4)
+    chk.rule("C02-R4", "MH/CWMH (no proposal correction) refuse non-symmetric proposal distributions when the proposal is configured (a refused proposal does not stay installed: validate before the store, or roll the store back)", floor=4)
     chk.rule("C02-R5", "pCN proposal is sqrt(1-s**2)*x + s*xi with xi from the prior and a likelihood-only ratio; MALA proposal drift/variance agree with log_proposal", floor=4)
     chk.rule("C02-R6", "no unanalysed function in the sampler packages contains a Metropolis acceptance expression min(0, .)", floor=1)
     chk.rule("C02-R7", "every write of a cached evaluation (current_*_logd / current_*_grad) is the evaluation at the current point or is paired "
-                       "with the adoption of the point it was evaluated at (the ratio's denominator belongs to the current state)", floor=14)
+                       "with the adoption of the point it was evaluated at (the ratio's denominator belongs to the current state), and is filled by the evaluation it memoises", floor=14)
     from ..cachepoint import cache_point_rule
     cache_point_rule(chk, repo, "C02-R7", repo.classes_in("cuqi/experimental/mcmc/"))
 
